@@ -231,10 +231,16 @@ func (n *BaseMember) DecodeJSON(b []byte, enc encoder.Encoder) error {
 		return e.Wrap(err)
 	}
 
-	n.name = u.Name
-	n.addr = addr
-	n.joinedAt = u.JoinedAt
-	n.meta = meta
+	// NOTE hint, meta bytes and publish conninfo are restored too; without
+	// them the decoded member is not valid and is encoded without meta.
+	m, err := newMemberWithMeta(u.Name, addr, meta)
+	if err != nil {
+		return e.Wrap(err)
+	}
+
+	m.joinedAt = u.JoinedAt
+
+	*n = m
 
 	return nil
 }
